@@ -62,6 +62,9 @@ class C07(Prop):
                     fields.append(("Mode", rng.choice([0, 1, 3])))
             objs.append(enc_struct(fields))
         if rng.random() < 0.5:
+            # an object that has nothing to offer (nil) between objects that have: what a run finds out about its object is that run's
+            objs.insert(rng.randrange(len(objs) + 1), "N")
+        if rng.random() < 0.5:
             ops.append("setvar:%s:%s" % (vlib.hx("n"), enc_value(rng.choice([0, 5]))))
         ops.append("ctx:%d" % rng.choice([400, 2000, 100000]))
         ops.append("prepare:" + rng.choice(["opt", "noopt"]))
